@@ -603,12 +603,14 @@ Proof.
   apply step0_headed; [exact L| |exact H]. intro X. apply NI. left. symmetry. exact X.
 Qed.
 
-Lemma fin_headed sc a R : rtag a <> a_scene -> headed a R -> headed a (fin sc R).
+Lemma fin_headed sc a R : rtag a <> a_scene -> rtag a <> a_extra -> headed a R -> headed a (fin sc R).
 Proof.
-  intros N [rest E]. subst R. apply has_tag_neq in N. unfold fin, ensure_scene.
+  intros N NX [rest E]. apply has_tag_neq in NX. subst R. apply has_tag_neq in N. unfold fin, ensure_scene.
   assert (H1 : headed a (update_first a_scene clear_el
-                (match find_tag a_scene (a :: rest) with Some _ => a :: rest | None => (a :: rest) ++ [new_el a_scene] end))).
-  { destruct (find_tag a_scene (a :: rest)); simpl; rewrite N; eexists; reflexivity. }
+                (match find_tag a_scene (a :: rest) with Some _ => a :: rest
+                 | None => insert_at (scene_loc (a :: rest)) (new_el a_scene) (a :: rest) end))).
+  { destruct (find_tag a_scene (a :: rest)); simpl; [rewrite N; eexists; reflexivity|].
+    rewrite NX. simpl. rewrite N. eexists; reflexivity. }
   destruct sc as [[su0 sid0]|]; [|exact H1]. destruct H1 as [r1 E1]. rewrite E1. simpl. rewrite N. eexists; reflexivity.
 Qed.
 
@@ -632,7 +634,7 @@ Proof. intros [rest E]. subst R. reflexivity. Qed.
 Lemma ensure_present R : find_tag a_scene (ensure_scene R) <> None.
 Proof.
   unfold ensure_scene. destruct (find_tag a_scene R) eqn:F; [rewrite F; discriminate|].
-  rewrite find_tag_app, F. simpl. discriminate.
+  rewrite find_tag_insert_absent; [discriminate|exact F|reflexivity].
 Qed.
 
 Lemma ensure_id R : find_tag a_scene R <> None -> ensure_scene R = R.
@@ -665,9 +667,7 @@ Proof.
   assert (E : find_tag t (update_first a_scene clear_el (ensure_scene R)) = find_tag t R).
   { rewrite find_tag_update_other; [|apply keeps_clear|exact N].
     unfold ensure_scene. destruct (find_tag a_scene R); [reflexivity|].
-    rewrite find_tag_app. destruct (find_tag t R); [reflexivity|].
-    assert (HT : has_tag t (new_el a_scene) = false) by (apply has_tag_neq; simpl; congruence).
-    rewrite HT. reflexivity. }
+    apply find_tag_insert_other. simpl. congruence. }
   destruct sc as [[su0 sid0]|]; [|exact E]. rewrite find_tag_update_other; [exact E|apply keeps_set_kids|exact N].
 Qed.
 
@@ -676,9 +676,9 @@ Proof.
   intro C. unfold fin.
   assert (E : count_tag t (update_first a_scene clear_el (ensure_scene R)) <= 1).
   { rewrite count_update by apply keeps_clear. unfold ensure_scene.
-    destruct (find_tag a_scene R) eqn:F; [exact C|]. rewrite count_app1.
-    destruct (has_tag t (new_el a_scene)) eqn:X; [|lia]. apply has_tag_eq in X. simpl in X. subst t.
-    apply count_zero_find in F. lia. }
+    destruct (find_tag a_scene R) eqn:F; [exact C|]. rewrite count_insert.
+    destruct (has_tag t (new_el a_scene)) eqn:X; [|exact C]. apply has_tag_eq in X. simpl in X. subst t.
+    apply count_zero_find in F. rewrite F. apply le_n. }
   destruct sc as [[su0 sid0]|]; [|exact E]. rewrite count_update by apply keeps_set_kids. exact E.
 Qed.
 
@@ -831,7 +831,7 @@ Proof.
   assert (HD0 : headed (asset_el m) R0) by (eexists; reflexivity).
   assert (HD1 : headed (asset_el m) t1).
   { destruct T as [(sc & T & _)|(pre & lj & post & g & L & _ & _ & T)]; rewrite T.
-    - apply fin_headed; [discriminate|]. apply tloop_headed; [lia|exact NA|exact HD0].
+    - apply fin_headed; [discriminate|discriminate|]. apply tloop_headed; [lia|exact NA|exact HD0].
     - apply stepF_headed; [lia| |].
       + simpl. intro X. apply NA. rewrite L, map_app. apply in_or_app. right. left. symmetry. exact X.
       + apply tloop_headed; [lia| |exact HD0].
@@ -924,8 +924,7 @@ Section Unmanaged.
     intro Q. unfold fin.
     assert (E : filter p (update_first a_scene clear_el (ensure_scene R)) = filter p R).
     { rewrite filter_update_first; [|apply keeps_clear|exact Q]. unfold ensure_scene.
-      destruct (find_tag a_scene R); [reflexivity|]. rewrite filter_app.
-      assert (P1 : p (new_el a_scene) = false) by exact Q. simpl. rewrite P1. apply app_nil_r. }
+      destruct (find_tag a_scene R); [reflexivity|]. apply filter_insert_at. exact Q. }
     destruct sc as [[su0 sid0]|]; [|exact E]. rewrite filter_update_first; [exact E|apply keeps_set_kids|exact Q].
   Qed.
 
@@ -981,7 +980,7 @@ Proof.
   - assert (L1 : loc = 1).
     { unfold loc, R0, root0. apply library_loc_headed; [reflexivity|]. apply (C0 a_asset), managed_asset. }
     assert (HD : headed (asset_el m) (fin (mscene m) (tloop loc (mlibs m) R0))).
-    { apply fin_headed; [discriminate|]. apply tloop_headed; [lia|exact NA|eexists; reflexivity]. }
+    { apply fin_headed; [discriminate|discriminate|]. apply tloop_headed; [lia|exact NA|eexists; reflexivity]. }
     destruct HD as [rest HD]. rewrite HD. reflexivity.
   - unfold fin. set (Y := tloop loc (mlibs m) R0).
     assert (P := ensure_present Y). destruct (find_tag a_scene (ensure_scene Y)) as [c|] eqn:F; [|congruence].
